@@ -725,9 +725,11 @@ fn plant_legacy(w: &mut World, r: &mut Rng, n: usize) {
     }
 }
 
+/// number of legacy wait-list entries, counted on the raw storage keys (length-prefixed namespace "wait"),
+/// independently of the repository's own reader
 fn legacy_left(w: &World) -> usize {
-    let mut st = w.stores[HUB].clone();
-    basset_sei_hub::state::read_old_unbond_wait_lists(&mut st, Some(10_000)).map(|v| v.len()).unwrap_or(0)
+    let prefix: &[u8] = &[0, 4, b'w', b'a', b'i', b't'];
+    w.stores[HUB].0.keys().filter(|k| k.starts_with(prefix)).count()
 }
 
 /// world digest with the hub's pause flag normalised (`None` and `Some(false)` both mean "not paused")
@@ -897,8 +899,10 @@ fn c11_world(seed: u64, index: u64, thorough: bool) -> HistoryReport {
                 break;
             }
             let after = legacy_left(&c);
-            if before - after != (chunk as usize).min(before) {
-                out.violation("C11", "migration_moves_entries", format!("migration of up to {} entries moved {} ({} -> {})", chunk, before - after, before, after));
+            // how many entries one call moves is the contract's business (page caps are fine); it must make progress
+            // and never move more than asked for
+            if after >= before || before - after > (chunk as usize) {
+                out.violation("C11", "migration_moves_entries", format!("migration of up to {} entries moved {} ({} -> {})", chunk, before as i64 - after as i64, before, after));
             }
         }
         if out.violations.is_empty() {
